@@ -31,6 +31,9 @@ def sigs_of(args, r):
         s.add('lib-diff:' + f)
     for f in r.get('cmpdiff') or []:
         s.add('sched-dep:' + f)
+    if args.get('rank_hashseeds') and args.get('P') == 1:
+        for f in r.get('diff') or []:
+            s.add('hashseed-dep:' + f)
     return s
 
 
@@ -78,7 +81,7 @@ def main(tier, seed, budget):
     crng = base.rng_for(seed, 'c13-configs')
     cfgs, skipped = configs.pool(crng, n_sub=10 if quick else 40, max_n=5,
                                  cap=600 if quick else 1700)
-    stats = dict(blocks_opened=0, mixed_hs=0, worlds=0, ref_worlds=0, by_P={}, by_policy={}, eager={}, root_copy=0, events=0, mpi=0, fs=0,
+    stats = dict(hs2_refs=0, blocks_opened=0, mixed_hs=0, worlds=0, ref_worlds=0, by_P={}, by_policy={}, eager={}, root_copy=0, events=0, mpi=0, fs=0,
                  rdigests=set(), nontrivial=set(), harness=0, sound_functions=0, sound_points=0, empty_slice_runs=0,
                  hashseeds=hashseeds, ref_failed=[])
     samples = []
@@ -146,6 +149,22 @@ def main(tier, seed, budget):
                     if (c['runname'], c['compl']) == cfg_key(a):
                         c['unmerged'] = r.get('n_unmerged') or 0
             live_cfgs = [c for c in cfgs if (c['runname'], c['compl']) in refs]
+            # ---- the same sequential run in an interpreter with another string-hash secret (under mpirun every rank has its
+            #      own): tree, function and code-length lists must not depend on it
+            hs2_jobs = [dict(fn=JOB, args=dict(runname=c['runname'], compl=c['compl'], basis=c['basis'], P=1, seed=0, policy={'kind': 'lowest'},
+                                               run_seed=1, nfun=c['nfun'], rank_hashseeds=[hs + 1], oracle=False,
+                                               ref_hashes={f + '_%d.txt' % c['compl']: refs[(c['runname'], c['compl'])].get(f + '_%d.txt' % c['compl']) for f in GEN_FILES}),
+                             timeout=900) for c in live_cfgs if c['nfun'] <= (250 if quick else 1700)]
+            for job, out in pool.imap(hs2_jobs, timeout=900):
+                a = job['args']
+                stats['ref_worlds'] += 1
+                if out[0] != 'ok':
+                    rep.harness_error('hash-seed reference %s: %s %s' % (cfg_key(a), out[0], str(out[1])[-300:]))
+                    continue
+                r = out[1]
+                for f in r.get('diff') or []:
+                    rep.add('hashseed-dep:' + f, dict(run_seed=1, hashseed=hs, job=dict(fn=JOB, args=a), diff=r.get('diff')))
+                stats['hs2_refs'] += 1
             if not live_cfgs:
                 rep.harness_error('no reference world succeeded')
                 break
@@ -233,7 +252,7 @@ def main(tier, seed, budget):
              'order in which ranks touch every object (collective instance, shared path) touched by >= 2 ranks.' % 5,
         samples=samples,
         configurations=len(cfgs), configurations_skipped_over_cap=len(skipped), configurations_with_unmerge_path=sum(1 for c in cfgs if c.get('unmerged')), reference_failed=stats['ref_failed'],
-        worlds_by_P=stats['by_P'], worlds_by_policy=stats['by_policy'], eager_bias=stats['eager'], bcast_root_copy_runs=stats['root_copy'], worlds_with_per_rank_hash_seeds=stats['mixed_hs'],
+        worlds_by_P=stats['by_P'], worlds_by_policy=stats['by_policy'], eager_bias=stats['eager'], bcast_root_copy_runs=stats['root_copy'], worlds_with_per_rank_hash_seeds=stats['mixed_hs'], sequential_runs_under_another_hash_seed_compared=stats['hs2_refs'],
         runs_with_more_ranks_than_functions=stats['empty_slice_runs'],
         seam_events=stats['events'], mpi_events=stats['mpi'], fs_events=stats['fs'],
         simulated_time=dict(seam_events=stats['events'], timed_blocks_opened=stats['blocks_opened'],
